@@ -35,7 +35,7 @@ Proof. vm_compute. split; reflexivity. Qed.
    specification's for the stripped pattern *)
 Theorem C14_group_grammar_x_end_to_end_partial :
   forall xpath a w fls input,
-    ok_a xpath a = true -> existsb (N.eqb 59) fls = false -> (N.of_nat (length input) < umax)%N ->
+    ok_a xpath a = true -> existsb (N.eqb 59) fls = false -> (N.of_nat (length input) < umax)%N -> valid_in input ->
     strip_ws w 0%Z false = show_a a ->
     match spec_flags xpath fls with
     | Valid sf =>
